@@ -231,6 +231,7 @@ fn check(case: &Case, ev: &mut CaseEv, tier: Tier) -> CheckResult {
             isolation: false,
             connects: accepted.clone(),
             after_learn: false,
+            near_optimum: false,
         };
         let mut ev2 = CaseEv::default();
         let r = c01::check(&c, &mut ev2, tier);
